@@ -44,7 +44,7 @@ META["C13"] = {
                               "premature Ok(0) position (thorough tier)"],
     "sampled_dimensions": ["targets' values (sizes 0, 1, few, <=64; thorough adds ~4 KiB and >8 KiB payloads)", "BufWriter capacity", "short-write / EINTR / mixed scripts",
                            "RLIMIT_FSIZE cut positions"],
-    "expected_probes": ["fault_in_header_fields", "fault_in_len_or_tag", "fault_in_padding", "fault_in_zero_copy_block", "flush_failure",
+    "expected_probes": ["fault_in_header_fields", "fault_in_len_or_tag", "fault_in_padding", "fault_in_zero_copy_block", "flush_failure", "kernel_fault_mid_stream",
                         "eintr_retried_to_success", "fault_deferred_by_bufwriter"],
     "real": REAL_COMMON + ["WriterWithPos / SchemaWriter", "Serialize::store on the kernel's file system, /dev/full, RLIMIT_FSIZE (EFBIG)"],
     "stub": SIM_IO_STUB,
